@@ -651,6 +651,7 @@ func RunCheck(o Options) int {
 	var reported []map[string]any
 	knownSeen := map[string]int{}
 	finalKeys := map[string]bool{}
+	var irreproducible []string
 	for ki, k := range keys {
 		if ki >= 40 {
 			fmt.Printf("note: %d further violation keys not minimised\n", len(keys)-ki)
@@ -725,8 +726,9 @@ func RunCheck(o Options) int {
 		if v.Viol.Class == "worker-crash" {
 			reproduced = code != 0 && code != 1 || strings.Contains(string(ob), "fatal error") || strings.Contains(string(ob), "panic:")
 			if !reproduced {
-				fmt.Fprintf(os.Stderr, "INFRASTRUCTURE: worker crash at index %d did not reproduce in a fresh process\n%s\n", v.Index, v.Viol.Detail)
-				return 2
+				irreproducible = append(irreproducible, fmt.Sprintf("worker crash at index %d did not reproduce in a fresh process\n%s", v.Index, v.Viol.Detail))
+				os.Remove(outPath)
+				continue
 			}
 			final.Viol.Key = crashKey(string(ob))
 			final.Viol.Detail = truncate(string(ob), 3000)
@@ -756,8 +758,8 @@ func RunCheck(o Options) int {
 				os.Remove(outPath)
 				continue
 			} else {
-				fmt.Fprintf(os.Stderr, "INFRASTRUCTURE: replay of %s did not reproduce (exit %d), neither alone nor after the worker's earlier runs\n%s\n", outPath, code, truncate(string(ob), 2000))
-				return 2
+				irreproducible = append(irreproducible, fmt.Sprintf("replay of %s (key %s) did not reproduce (exit %d), neither alone nor after the worker's earlier runs\n%s", outPath, final.Viol.Key, code, truncate(string(ob), 2000)))
+				continue
 			}
 		} else if !reproduced && final.Degraded {
 			// the violation was observed on the real code, but the run contained blocking the scheduler does not
@@ -767,8 +769,8 @@ func RunCheck(o Options) int {
 			os.WriteFile(outPath, nb, 0o644)
 			fmt.Printf("note: %s did not reproduce exactly (degraded schedule)\n", outPath)
 		} else if !reproduced {
-			fmt.Fprintf(os.Stderr, "INFRASTRUCTURE: replay of %s did not reproduce (exit %d)\n%s\n", outPath, code, truncate(string(ob), 2000))
-			return 2
+			irreproducible = append(irreproducible, fmt.Sprintf("replay of %s (key %s) did not reproduce (exit %d)\n%s", outPath, final.Viol.Key, code, truncate(string(ob), 2000)))
+			continue
 		}
 		fk := final.Viol.Key
 		if finalKeys[fk] {
@@ -790,6 +792,20 @@ func RunCheck(o Options) int {
 			fmt.Printf("  %s\n", strings.ReplaceAll(truncate(final.Viol.Detail, 1500), "\n", "\n  "))
 		}
 		reported = append(reported, map[string]any{"key": fk, "class": final.Viol.Class, "known": known, "replay": outPath, "occurrences": len(vs)})
+	}
+
+	// A failure that does not replay is never reported as a violation. When the same check run also produced violations
+	// that do replay, those decide the verdict and the others are only noted; when none replays, the run is inconclusive
+	// (exit 2) rather than clean.
+	for _, m := range irreproducible {
+		if exit == 1 {
+			fmt.Printf("note: not reported, %s\n", truncate(m, 300))
+		} else {
+			fmt.Fprintln(os.Stderr, "INFRASTRUCTURE:", m)
+		}
+	}
+	if exit == 0 && len(irreproducible) > 0 {
+		return 2
 	}
 
 	// ---- evidence ----
@@ -856,7 +872,8 @@ func RunCheck(o Options) int {
 	}
 	fmt.Printf("done property=%s runs=%d (plain %d, race %d) distinct_nontrivial=%d faults=%v wall=%.1fs exit=%d\n",
 		o.Prop, evals, plain.Evals, race.Evals, len(sigs), mergeCounts(plain.Faults, race.Faults), wall, exit)
-	if evals == 0 {
+	if evals == 0 && exit == 0 {
+		// (when every worker died in its first run the crash itself was replayed and reported above)
 		fmt.Fprintln(os.Stderr, "INFRASTRUCTURE: no run executed")
 		return 2
 	}
